@@ -187,50 +187,10 @@ func init() {
 			c.set(litStr(u.String()))
 			return nil, false
 		}
-		// symbolic components: scheme://host/path?query#fragment without escaping
-		// (components are assumed to need none; see the harness assumptions)
-		scheme, host, path, q, frag, opaque := c.urlField(sv, "Scheme"), c.urlField(sv, "Host"), c.urlField(sv, "Path"), c.urlField(sv, "RawQuery"), c.urlField(sv, "Fragment"), c.urlField(sv, "Opaque")
-		if !(opaque.K == SLit && opaque.S == "") {
-			panic(engineErr("URL.String with symbolic Opaque"))
-		}
-		if scheme.K != SLit || frag.K != SLit {
+		if _, ok := c.w.E.Models["url_URL_String"]; ok {
 			return c.fallbackModel("url_URL_String")
 		}
-		r := litStr("")
-		if scheme.S != "" {
-			r = strConcat(r, litStr(scheme.S+":"))
-		}
-		hostEmpty := host.K == SLit && host.S == ""
-		if host.K != SLit {
-			// a symbolic host is assumed non-empty by the harnesses that use one
-			c.s.addPC(tNot(tEq(host.term(), `""`)))
-		}
-		if scheme.S != "" || !hostEmpty {
-			if !hostEmpty || path.K != SLit || strings.HasPrefix(path.S, "/") == false && path.S != "" {
-				if !hostEmpty {
-					r = strConcat(r, litStr("//"))
-					r = strConcat(r, host)
-				}
-			}
-		}
-		r = strConcat(r, path)
-		if q.K != SLit {
-			// "?" + q when q != ""
-			withQ := strConcatN(r, litStr("?"), q)
-			c.set(opaqueStr(tIte(tEq(q.term(), `""`), r.term(), withQ.term())))
-			if frag.S != "" {
-				panic(engineErr("URL.String: symbolic query with fragment"))
-			}
-			return nil, false
-		}
-		if q.S != "" {
-			r = strConcatN(r, litStr("?"), q)
-		}
-		if frag.S != "" {
-			r = strConcatN(r, litStr("#"+frag.S))
-		}
-		c.set(r)
-		return nil, false
+		panic(engineErr("URL.String on symbolic components without a model"))
 	}
 	I["(*net/url.URL).RequestURI"] = func(c *icall) ([]*State, bool) {
 		sv := c.s.load(c.args[0].(PtrV)).(StructV)
